@@ -304,10 +304,10 @@ pub fn gen_slot_ex(r: &mut Rng, mode: Mode, force_long: bool) -> SlotCfg {
                 }
                 _ => {
                     let mix = gen_mix(r, true);
-                    [Lay::C, Lay::F, Lay::Window, Lay::Step2, Lay::Rev, mix][r.weighted(&[5, 1, 1, 1, 1, 3])]
+                    [Lay::C, Lay::F, Lay::Window, Lay::Step2, Lay::Rev, mix, Lay::Wide][r.weighted(&[5, 1, 1, 1, 1, 3, 1])]
                 }
             },
-            x_lay: if storage == Storage::View { [Lay::C, Lay::Step2, Lay::Rev][r.weighted(&[6, 1, 1])] } else { Lay::C },
+            x_lay: if storage == Storage::View { [Lay::C, Lay::Step2, Lay::Rev, Lay::Wide, Lay::WideRev][r.weighted(&[6, 1, 1, 1, 1])] } else { Lay::C },
             build_order: [0u8, 1, 2, 3][r.weighted(&[5, 2, 2, 1])],
         };
     }
@@ -320,7 +320,42 @@ pub fn mutate_slot(r: &mut Rng, base: SlotCfg) -> SlotCfg {
     let two = c.kind.is_2d();
     let lanes: usize = c.trailing().iter().product();
     let nx = c.shape[0];
-    match r.below(6) {
+    match r.below(7) {
+        6 => {
+            // the same values in another order: rows reversed, two rows exchanged, rows rotated,
+            // or two lanes exchanged (anything keyed by an order-insensitive digest of the data collides)
+            let rows = nx;
+            let row_len = if rows > 0 { c.data.len() / rows } else { 0 };
+            if rows >= 2 && row_len >= 1 && !two {
+                let mut rowsv: Vec<Vec<Fb>> = c.data.chunks(row_len).map(|ch| ch.to_vec()).collect();
+                match r.below(4) {
+                    0 => rowsv.reverse(),
+                    1 => {
+                        // exchange two interior rows (keeps a periodic closure intact)
+                        if rows >= 4 {
+                            let i = r.range(1, rows - 3);
+                            rowsv.swap(i, i + 1);
+                        } else {
+                            rowsv.reverse();
+                        }
+                    }
+                    2 if c.bc != Bc::Periodic => {
+                        let k = r.range(1, rows - 1);
+                        rowsv.rotate_left(k);
+                    }
+                    _ => {
+                        if row_len >= 2 {
+                            for rw in rowsv.iter_mut() {
+                                rw.swap(0, row_len - 1);
+                            }
+                        } else {
+                            rowsv.reverse();
+                        }
+                    }
+                }
+                c.data = rowsv.into_iter().flatten().collect();
+            }
+        }
         0 | 1 => {
             // other interior knots, same end points
             let mut ax = c.axis_x();
